@@ -29,7 +29,7 @@ def main():
             except subprocess.TimeoutExpired:
                 txt, rc = "TIMEOUT", 124
             sigs = [l.split("signature:")[1].strip() for l in txt.split("\n") if "signature:" in l]
-            out[c] = {"exit": rc, "fired": rc == 1, "signatures": sigs[:3], "wall_s": round(time.time() - t0)}
+            out[c] = {"exit": rc, "fired": rc == 1, "signatures": sorted(set(sigs))[:12], "wall_s": round(time.time() - t0)}
             print(sid, c, "FIRED" if rc == 1 else ("ok" if rc == 0 else "exit %d" % rc), sigs[:1], flush=True)
     finally:
         subprocess.run("git -C /repo worktree remove --force %s" % wt, shell=True)
